@@ -304,7 +304,7 @@ func (w *World) Run() {
 
 func (w *World) closeReplicas() {
 	for _, n := range w.Replicas {
-		if n.dir != "" {
+		if n.dir != "" && !n.dbClosed {
 			_ = n.DB.Close()
 		}
 	}
@@ -359,6 +359,14 @@ func (w *World) execBlock(b *BlockSpec) bool {
 			continue
 		}
 		w.runNoise(b, ti, height)
+		if ts.SimOnly {
+			if len(w.Log) > 0 {
+				r := ref.App.Query(abci.RequestQuery{Path: "/app/simulate", Data: w.signFor(ts, ref.App.BaseApp.NewContext(true, w.Hdr))})
+				w.Fault("abci.simulate_only")
+				w.Ev("SIMONLY %d/%d code=%d", height, ti, r.Code)
+			}
+			continue
+		}
 		if ts.Check || ts.CheckOnly {
 			w.doCheck(tx)
 		}
@@ -647,6 +655,16 @@ func (w *World) restart(n *Node) {
 		n.Fault.Disarm()
 	}
 	var p string
+	if n.dbClosed {
+		db, err := dbm.NewGoLevelDB("application", n.dir)
+		if err != nil {
+			w.Violate("C01", "C01/restart/open-panic", "node %d cannot reopen its LevelDB files: %v", n.Idx, err)
+			return
+		}
+		n.Fault.DB = db
+		n.dbClosed = false
+		w.Fault("disk.leveldb_reopen")
+	}
 	p, _ = safely(func() { n.Open() })
 	if p != "" {
 		w.Violate("C01", "C01/restart/open-panic", "node %d cannot reopen its database: %s", n.Idx, p)
@@ -695,6 +713,12 @@ func (w *World) die(n *Node, at string, committed bool, torn bool) {
 	n.Down = true
 	n.crashTorn = torn
 	_ = committed
+	if n.dir != "" && n.Fault != nil {
+		// the process is gone: its LevelDB handle goes with it; the restart opens the files again
+		// (journal replay, manifest recovery)
+		_ = n.Fault.DB.Close()
+		n.dbClosed = true
+	}
 }
 
 func (w *World) execOnReplica(n *Node, rec *BlockRec, crash *NodeEvent, ev *NodeEvent) {
